@@ -282,6 +282,12 @@ def gen_structure_cases(rng, n):
     for i in range(n):
         ng = rng.randint(1, 3)
         groups = [["g%d" % g] + [W.det("d%d_%d" % (g, k), x=str(rng.randint(0, 9))) for k in range(rng.randint(1, 3))] for g in range(ng)]
+        # argument values written as JSON numbers / booleans (not strings) must reach the plugin unchanged
+        for g in groups:
+            for d in g[1:]:
+                if rng.random() < 0.5:
+                    d["args"]["num"] = rng.choice([0.0123456789, 1234567.5, 1.0000005, 0.1, 1e-7, 123456789.125, 5, -5, 0,
+                                                   2**31, 2**53 + 1, 2**63 - 1, -2**63, 1.5e300, True, False, 3.0])
         acts = [W.act("a%d" % k, **({"post_action_delay": rng.choice([0, 3])} if rng.random() < 0.3 else {})) for k in range(rng.randint(1, 3))]
         rs = {"name": "r", "detectors": groups, "actions": acts}
         hooks = [{"name": "v_hook", "args": {"id": "h%d" % k, "cgroup": rng.choice(["/", "a/*", "x,y"])}} for k in range(rng.randint(0, 2))]
@@ -372,7 +378,28 @@ def judge_validity(v, tier, seed):
                     want += [("act", x["args"]["id"], x["args"]) for x in r["actions"]]
                 want += [("hook", h["args"]["id"], h["args"]) for h in cfg.get("prekill_hooks", [])]
                 got = [(i["kind"], i["id"], i["args"]) for i in a["inits"]]
-                if got != want:
+
+                def same_args(g_, w_):
+                    if set(g_) != set(w_):
+                        return False
+                    for k_, wv in w_.items():
+                        gv = g_[k_]
+                        if isinstance(wv, bool):
+                            ok_ = gv == ("true" if wv else "false")
+                        elif isinstance(wv, int):
+                            ok_ = gv == str(wv)
+                        elif isinstance(wv, float):
+                            try:
+                                ok_ = float(gv) == wv
+                            except ValueError:
+                                ok_ = False
+                        else:
+                            ok_ = gv == wv
+                        if not ok_:
+                            return False
+                    return True
+
+                if len(got) != len(want) or any(g_[:2] != w_[:2] or not same_args(g_[2], w_[2]) for g_, w_ in zip(got, want)):
                     v.bad("not-honoured-exactly", "", "plugins initialised %s, configuration says %s" % (got, want))
     v.count("config_accepted", acc)
     v.count("config_rejected", rej)
